@@ -647,6 +647,23 @@ pub enum PeerConnectionEvent {
 #[derive(Clone)]
 pub struct PeerConnection {
     inner: Arc<PeerConnectionInner>,
+    /// Shared by every handle the application holds; internal helper handles
+    /// carry `None`. When the last application handle goes away the
+    /// connection is closed even if internal tasks still hold `inner`.
+    _app: Option<Arc<AppHandle>>,
+}
+
+struct AppHandle {
+    inner: std::sync::Weak<PeerConnectionInner>,
+}
+
+impl Drop for AppHandle {
+    fn drop(&mut self) {
+        if let Some(inner) = self.inner.upgrade() {
+            inner.close_with_reason(DisconnectReason::Dropped);
+            inner.abort_tracked_tasks();
+        }
+    }
 }
 
 struct PeerConnectionInner {
@@ -807,8 +824,12 @@ impl PeerConnection {
             tasks: Mutex::new(Vec::new()),
             pc_span,
         };
+        let inner = Arc::new(inner);
         let pc = Self {
-            inner: Arc::new(inner),
+            _app: Some(Arc::new(AppHandle {
+                inner: Arc::downgrade(&inner),
+            })),
+            inner,
         };
 
         if is_direct_mode {
@@ -4276,6 +4297,7 @@ async fn handle_connected_state_no_dtls(
     if let Some(inner) = inner_weak.upgrade() {
         let pc_temp = PeerConnection {
             inner: inner.clone(),
+            _app: None,
         };
         // For RTP/SRTP, we pass false as is_client, but it doesn't matter as start_dtls handles it
         match pc_temp.start_dtls(false).await {
@@ -4383,6 +4405,7 @@ async fn handle_connected_state(
             if let Some(inner) = inner_weak.upgrade() {
                 let pc_temp = PeerConnection {
                     inner: inner.clone(),
+                    _app: None,
                 };
 
                 match pc_temp.start_dtls(is_client).await {
